@@ -19,8 +19,14 @@ static void sim_hook(bool in, int kind, const char* name, void* ptr, void* state
 {
   g_hooks.push_back(HookEv{ in, kind, name, ptr, state });
 }
-#ifdef TR_HOOKS
+// TR_HOOKS: both notifications; TR_HOOKS_IN_ONLY / TR_HOOKS_OUT_ONLY: an application that defines just one of the two
+#if defined(TR_HOOKS_IN_ONLY) || defined(TR_HOOKS_OUT_ONLY)
+#  define TR_HOOKS
+#endif
+#if defined(TR_HOOKS) && !defined(TR_HOOKS_OUT_ONLY)
 #  define RLBOX_TRANSITION_ACTION_IN(kind, name, ptr, state) sim_hook(true, (int)(kind), name, ptr, state)
+#endif
+#if defined(TR_HOOKS) && !defined(TR_HOOKS_IN_ONLY)
 #  define RLBOX_TRANSITION_ACTION_OUT(kind, name, ptr, state) sim_hook(false, (int)(kind), name, ptr, state)
 #endif
 #ifdef TR_TIMING
@@ -427,6 +433,23 @@ struct Runner
           return h.name && strcmp(h.name, "g_multi") == 0 && h.ptr == BT<Sbx>::fn_identity(*sb[(size_t)e.s]);
         return h.name == nullptr && h.ptr == keys[(size_t)e.fn];
       };
+#if defined(TR_HOOKS_IN_ONLY) || defined(TR_HOOKS_OUT_ONLY)
+      // only one of the two notifications is defined: the expected sequence is the full one with the other kind left out
+      {
+        std::vector<ExpHook> kept;
+        for (auto& e : exp)
+#  ifdef TR_HOOKS_IN_ONLY
+          if (e.in)
+#  else
+          if (!e.in)
+#  endif
+            kept.push_back(e);
+        exp.swap(kept);
+      }
+      constexpr bool single_kind = true;
+#else
+      constexpr bool single_kind = false;
+#endif
       size_t best_e = 0, best_g = 0;
       std::function<bool(size_t, size_t)> match = [&](size_t ei, size_t gi) -> bool {
         if (ei + gi > best_e + best_g) {
@@ -436,6 +459,12 @@ struct Runner
         if (ei == exp.size())
           return gi == g_hooks.size();
         const ExpHook& e = exp[ei];
+        if (e.optional && single_kind) {
+          // what is left of an optional pair: present or absent
+          if (gi < g_hooks.size() && same(e, g_hooks[gi]) && match(ei + 1, gi + 1))
+            return true;
+          return match(ei + 1, gi);
+        }
         if (e.optional) {
           // pair (ei, ei+1): both present or both absent
           if (gi + 1 < g_hooks.size() && same(e, g_hooks[gi]) && same(exp[ei + 1], g_hooks[gi + 1]) && match(ei + 2, gi + 2))
